@@ -193,6 +193,13 @@ def zoo(rng, thorough):
     add('LmiDmdc', lambda: lmi.LmiDmdc(alpha=0.1, solver_params=dict(SOLVER)), 'regressor', {'alpha': [0.1, 1]}, tol=1e-7, tags={'lmi': True})
     add('LmiEdmdSpectralRadiusConstr', lambda: lmi.LmiEdmdSpectralRadiusConstr(spectral_radius=0.9, max_iter=3, solver_params=dict(SOLVER)),
         'regressor', {'spectral_radius': [0.8, 0.9], 'max_iter': [2, 3]}, tol=1e-6, tags={'lmi': True, 'iterative': True})
+    # array-valued constructor arguments handed over as ndarrays (complex poles as returned by scipy.signal design
+    # functions): fit must not write into them
+    add('LmiHinfZpkMeta', lambda: lmi.LmiHinfZpkMeta(
+        hinf_regressor=lmi.LmiEdmdHinfReg(alpha=1, ratio=1, max_iter=1, solver_params=dict(SOLVER)), type='post',
+        zeros=np.array([-2.0 + 0j]), poles=np.array([-0.4 + 0.4j, -0.4 - 0.4j]), gain=1.0, t_step=0.5, units='hz'),
+        'regressor', {'units': ['hz', 'normalized', 'rad/s'], 'gain': [1.0, 2.0]}, tol=1e-6, tags={'lmi': True, 'iterative': True})
+    add('DataCenters/array', lambda: pykoop.DataCenters(centers=np.array([[0.0, 0.5], [1.0, -1.0], [0.25, 0.25]])), 'centers')
     if thorough:
         add('LmiEdmdHinfReg', lambda: lmi.LmiEdmdHinfReg(alpha=1, ratio=1, max_iter=2, solver_params=dict(SOLVER)), 'regressor',
             {'alpha': [1, 2]}, tol=1e-6, tags={'lmi': True, 'iterative': True})
